@@ -320,3 +320,41 @@ def extra_units():
     from pyvc.units import share
     # ... and the multiprocess job loop declares the read group of every fragment it writes (C08's unit)
     return [share(c20.sort_and_index, PROP), share(c08.run_task_rg, PROP)]
+
+
+# ------------------------------------------------------------------------------ get_contigs_with_reads: which contigs get a job
+# "any number of unmapped reads": a contig is listed iff the index statistics show records placed on it - mapped ones or
+# unmapped mates placed next to their partner (bounded: two index lines, symbolic names and counts)
+FBF = 'singlecellmultiomics/bamProcessing/bamFunctions.py'
+
+
+def idx_setup(eng):
+    from pyvc import segstr
+    eng.ghost.clear()
+    C, L, M, U, lines = [], [], [], [], []
+    for i in range(2):
+        c = segstr.register_atom(eng, named(STR, 'contig_%d' % i), ' \t\n\r\x0b\x0c')
+        ln, m, u = named(INT, 'length_%d' % i), named(INT, 'mapped_%d' % i), named(INT, 'unmapped_%d' % i)
+        eng.assume(z3.And(z3.Length(c.z) >= 1, ln.z >= 0, m.z >= 0, u.z >= 0))
+        C.append(c); L.append(ln); M.append(m); U.append(u)      # noqa: E702
+        lines += [c, '\t'] + segstr.parts_of(eng.to_str(ln)) + ['\t'] + segstr.parts_of(eng.to_str(m)) + ['\t'] + segstr.parts_of(eng.to_str(u)) + ['\n']
+    eng.spec_env.update({'C': C, 'L': L, 'M': M, 'U': U})
+    text = segstr.build(lines)
+    externals.EXTRA['pysam.idxstats'] = lambda e, a, k, n: text
+
+
+contigs_with_reads = Contract(
+    PROP, FBF + '::get_contigs_with_reads', name='get_contigs_with_reads[2 index lines]',
+    params={'bam_path': ('const', 'in.bam'), 'with_length': ('const', True)},
+    setup=idx_setup,
+    ensures={
+        'every_contig_with_mapped_or_placed_unmapped_records_is_listed':
+            'all(implies(M[i] > 0 or U[i] > 0, any([r[0] == C[i] and r[1] == L[i] for r in result])) for i in range(2))',
+        'nothing_else_is_listed':
+            'len(result) == (1 if (M[0] > 0 or U[0] > 0) else 0) + (1 if (M[1] > 0 or U[1] > 0) else 0)',
+    },
+    raises={},
+    bounded='two lines of samtools idxstats output (symbolic contig names, lengths and counts) and the trailing empty line',
+    assumptions=['pysam.idxstats returns "contig<TAB>length<TAB>mapped<TAB>unmapped" lines (A4)'],
+)
+UNITS.append(contigs_with_reads)
